@@ -49,5 +49,5 @@ MANIFEST = {
     "engine": "sched",
     "technique": "property-based testing with controlled schedules: every wait call of the real scheduler is intercepted and judged against a ready-set / in-flight model; known finding carved out by class key",
     "level_text": "Exploration. Every blocking wait of the scheduler is intercepted, so the no-idle predicate is evaluated at exactly the points where the scheduler idles; completion orders are sampled or enumerated. The one known violation class (K1) is excluded by construction and counted; any other unjustified wait is a violation.",
-    "level_note": "Trusted: interposed wait primitives and the knowledge model; the K1 class key is defined structurally (thread wait right after an async wait, no dispatch in between).",
+    "level_note": "Thorough tier additionally enumerates a complete small scope (every DAG on 4 ordered nodes x the property's own dimension - priorities / sequential subsets / failing node - with the whole completion-order tree of each). Trusted: interposed wait primitives and the knowledge model; the K1 class key is defined structurally (thread wait right after an async wait, no dispatch in between).",
 }
